@@ -1177,10 +1177,10 @@ impl<'input> Stream<'input> {
     }
 
     fn calc_curr_row(text: &str, end: usize) -> u32 {
-        let mut row = 1;
+        let mut row: u32 = 1;
         for c in &text.as_bytes()[..end] {
             if *c == b'\n' {
-                row += 1;
+                row = row.saturating_add(1);
             }
         }
 
@@ -1188,12 +1188,12 @@ impl<'input> Stream<'input> {
     }
 
     fn calc_curr_col(text: &str, end: usize) -> u32 {
-        let mut col = 1;
+        let mut col: u32 = 1;
         for c in text[..end].chars().rev() {
             if c == '\n' {
                 break;
             } else {
-                col += 1;
+                col = col.saturating_add(1);
             }
         }
 
